@@ -278,11 +278,12 @@ Lemma rl_roomy_step s s' pre :
   ptr_current (ps_rec s') = ptr_current (ps_rec s) -> ptr_limit (ps_rec s') = ptr_limit (ps_rec s) -> rl_roomy s'.
 Proof. unfold rl_roomy. intros H E Hc Hl. rewrite E, rl_weight_app in H. lia. Qed.
 
-(* sequencing *)
-Lemma rl_sim_bind {A B} (P : list rg_token -> Prop) (m1 : PM A) (m2 : A -> PM B) q1 q2 :
-  rl_sim P m1 q1 -> (forall a, rl_sim rl_any (m2 a) q2) -> rl_sim P (p_bind m1 m2) (rg_seq q1 q2).
+(* sequencing; Q is what the first recogniser guarantees about what it leaves *)
+Lemma rl_sim_bind_pre {A B} (P Q : list rg_token -> Prop) (m1 : PM A) (m2 : A -> PM B) q1 q2 :
+  rl_sim P m1 q1 -> (forall a, rl_sim Q (m2 a) q2) -> (forall ts r, P ts -> q1 ts = RgOk r -> Q r) ->
+  rl_sim P (p_bind m1 m2) (rg_seq q1 q2).
 Proof.
-  intros [Hg1 H1] H2. split; [apply rl_gen_bind; [exact Hg1|intros a; apply (H2 a)]|].
+  intros [Hg1 H1] H2 HQ. split; [apply rl_gen_bind; [exact Hg1|intros a; apply (H2 a)]|].
   intros s b s2 E Hok Ht Hp. apply bind_ok in E as (a & s1 & E1 & E2).
   destruct (H2 a) as [Hg2 H2a].
   destruct (rl_gen_run _ _ _ _ Hg1 E1 Ht) as (Ht1 & Hc1 & Hl1 & Hx1).
@@ -291,18 +292,22 @@ Proof.
   split.
   - intros He. destruct (rl_ext_split _ _ _ Hx1 Hx2 He) as [He1 He2].
     destruct (Hs1 He1) as (Hok1 & [pre1 Hpre1] & Hq1).
-    destruct (H2a s1 b s2 E2 Hok1 Ht1 I) as [Hs2 _].
+    destruct (H2a s1 b s2 E2 Hok1 Ht1 (HQ _ _ Hp Hq1)) as [Hs2 _].
     destruct (Hs2 He2) as (Hok2 & [pre2 Hpre2] & Hq2).
     split; [exact Hok2|split].
     + exists (pre1 ++ pre2). rewrite Hpre1, Hpre2. apply app_assoc.
     + unfold rg_seq. rewrite Hq1. exact Hq2.
   - intros Hr r Hq. unfold rg_seq, rg_bind in Hq. destruct (q1 (rl_sigs s)) as [r1| |] eqn:Eq1; try discriminate.
     destruct (Hcm1 Hr r1 Eq1) as [He1 Hr1].
-    destruct (Hs1 He1) as (Hok1 & [pre1 Hpre1] & _).
-    destruct (H2a s1 b s2 E2 Hok1 Ht1 I) as [_ Hcm2].
+    destruct (Hs1 He1) as (Hok1 & [pre1 Hpre1] & Hq1).
+    assert (HQ1 : Q (rl_sigs s1)) by (rewrite Hr1; exact (HQ _ _ Hp Eq1)).
+    destruct (H2a s1 b s2 E2 Hok1 Ht1 HQ1) as [_ Hcm2].
     assert (Hroom1 : rl_roomy s1) by (eapply rl_roomy_step; eauto).
     rewrite <- Hr1 in Hq. destruct (Hcm2 Hroom1 r Hq) as [He2 Hr2]. split; [congruence|exact Hr2].
 Qed.
+Lemma rl_sim_bind {A B} (P : list rg_token -> Prop) (m1 : PM A) (m2 : A -> PM B) q1 q2 :
+  rl_sim P m1 q1 -> (forall a, rl_sim rl_any (m2 a) q2) -> rl_sim P (p_bind m1 m2) (rg_seq q1 q2).
+Proof. intros H1 H2. eapply rl_sim_bind_pre; eauto. intros; exact I. Qed.
 
 (* a step that changes nothing observable, before or after *)
 Definition rl_silent {A} (m : PM A) : Prop :=
@@ -560,12 +565,12 @@ Lemma rl_gen_peek_is k : rl_gen (g_peek_is k).
 Proof. split; [apply (d_peek_is _ CT_atoms)|apply (d_peek_is _ CX_atoms)]. Qed.
 
 (* `if p.peek() == Some(k) { m }` is `X?` *)
-Lemma rl_sim_if_peek k m q : k <> TkEof ->
-  rl_sim (rg_starts (rg_is k)) m q -> rl_sim rl_any (g_if_peek k m) (rg_opt (rg_is k) q).
+Lemma rl_sim_if_peek_pre (P : list rg_token -> Prop) k m q : k <> TkEof ->
+  rl_sim (fun ts => P ts /\ rg_starts (rg_is k) ts) m q -> rl_sim P (g_if_peek k m) (rg_opt (rg_is k) q).
 Proof.
   intros Hne [Hg Hm]. split.
   { unfold g_if_peek. apply rl_gen_bind; [apply rl_gen_peek_is|]. intros [|]; cbn [p_when]; [exact Hg|apply rl_gen_ret]. }
-  intros s u s' E [Hinv Ha] Ht _. destruct (rl_inv_cur _ Hinv) as (t & Hc & Hi & _).
+  intros s u s' E [Hinv Ha] Ht HP. destruct (rl_inv_cur _ Hinv) as (t & Hc & Hi & _).
   unfold g_if_peek, p_bind in E. rewrite (peek_is_some k t s Hc) in E.
   rewrite (rl_peek_is_view _ _ _ Hinv Hc Hne) in E.
   unfold rl_sound, rl_complete, rg_opt. destruct (rl_sigs s) as [|t0 ts] eqn:Es; cbn [rl_head_is] in E.
@@ -573,12 +578,17 @@ Proof.
     + intros _. split; [split; assumption|]. split; [exists []; reflexivity|reflexivity].
     + intros _ r [= <-]. auto.
   - destruct (rg_is k t0) eqn:Hk; cbn [p_when] in E.
-    + assert (Hp : rg_starts (rg_is k) (rl_sigs s)) by (rewrite Es; exact Hk).
+    + assert (Hp : P (rl_sigs s) /\ rg_starts (rg_is k) (rl_sigs s)) by (rewrite Es; split; [exact HP|exact Hk]).
       destruct (Hm s u s' E (conj Hinv Ha) Ht Hp) as [Hs Hcm]. unfold rl_sound, rl_complete in *.
       rewrite Es in Hs, Hcm. split; assumption.
     + injection E as _ <-. rewrite Es. split.
       * intros _. split; [split; assumption|]. split; [exists []; reflexivity|reflexivity].
       * intros _ r [= <-]. auto.
+Qed.
+Lemma rl_sim_if_peek k m q : k <> TkEof ->
+  rl_sim (rg_starts (rg_is k)) m q -> rl_sim rl_any (g_if_peek k m) (rg_opt (rg_is k) q).
+Proof.
+  intros Hne Hm. apply rl_sim_if_peek_pre; [exact Hne|]. eapply rl_sim_weaken; [|exact Hm]. intros ts [_ H]. exact H.
 Qed.
 
 (* q accepts only inputs whose first token satisfies f *)
